@@ -161,8 +161,17 @@ func (w *fsWalker) eval(s *fsState, v ssa.Value) nilSt {
 		return w.eval(s, x.X)
 	case *ssa.Convert:
 		return w.eval(s, x.X)
+	case *ssa.Extract:
+		if call, ok := x.Tuple.(*ssa.Call); ok && x.Index == errResultIndex(call.Call.Signature()) {
+			if w.callPropagates(s, call) {
+				return nsNonNil
+			}
+		}
 	case *ssa.Call:
 		if nonNilMaker(x) {
+			return nsNonNil
+		}
+		if x.Call.Signature().Results().Len() == 1 && errResultIndex(x.Call.Signature()) == 0 && w.callPropagates(s, x) {
 			return nsNonNil
 		}
 		switch calleeName(x) {
@@ -186,6 +195,47 @@ func (w *fsWalker) eval(s *fsState, v ssa.Value) nilSt {
 	return nsUnknown
 }
 
+func isSentinelLoad(v ssa.Value) bool {
+	u, ok := v.(*ssa.UnOp)
+	if !ok || u.Op != token.MUL {
+		return false
+	}
+	g, ok := u.X.(*ssa.Global)
+	if !ok {
+		return false
+	}
+	p, ok := g.Type().(*types.Pointer)
+	return ok && isErrorType(p.Elem())
+}
+
+// propagating reports the parameter indices i of fn such that a non-nil
+// argument i implies a non-nil error result (decided by the same walk, from
+// the function entry).
+var propagatingCache = map[*ssa.Function]map[int]bool{}
+
+func propagating(fn *ssa.Function) map[int]bool {
+	if m, ok := propagatingCache[fn]; ok {
+		return m
+	}
+	m := map[int]bool{}
+	propagatingCache[fn] = m
+	if fn == nil || fn.Blocks == nil || errResultIndex(fn.Signature) < 0 {
+		return m
+	}
+	for i, p := range fn.Params {
+		if !isErrorType(p.Type()) {
+			continue
+		}
+		w := &fsWalker{fn: fn, e: p, seen: map[string]bool{}}
+		s := &fsState{env: map[ssa.Value]nilSt{p: nsNonNil}, cells: map[cellKey]nilSt{}}
+		w.walk(fn.Blocks[0], 0, nil, s, nil)
+		if !w.over && len(w.out) == 0 {
+			m[i] = true
+		}
+	}
+	return m
+}
+
 func variadicElems(call *ssa.Call) []ssa.Value {
 	var out []ssa.Value
 	for _, a := range call.Call.Args {
@@ -206,6 +256,24 @@ func variadicElems(call *ssa.Call) []ssa.Value {
 		out = append(out, a)
 	}
 	return out
+}
+
+func (w *fsWalker) callPropagates(s *fsState, call *ssa.Call) bool {
+	g := call.Call.StaticCallee()
+	if g == nil || g == w.fn {
+		return false
+	}
+	off := 0
+	if g.Signature.Recv() != nil {
+		off = 1
+	}
+	_ = off
+	for i := range propagating(g) {
+		if i < len(call.Call.Args) && w.eval(s, call.Call.Args[i]) == nsNonNil {
+			return true
+		}
+	}
+	return false
 }
 
 // learn records a nil-ness fact about v (and the cell it was loaded from).
@@ -306,7 +374,7 @@ func (w *fsWalker) walk(b *ssa.BasicBlock, idx int, prev *ssa.BasicBlock, s *fsS
 				}
 			case *ssa.Call:
 				delete(s.env, x)
-				if ssa.Instruction(x) == ssa.Instruction(w.c.(ssa.Instruction)) {
+				if w.c != nil && ssa.Instruction(x) == ssa.Instruction(w.c.(ssa.Instruction)) {
 					s = s.clone()
 					s.fresh = true
 					if ssa.Value(x) == w.e {
@@ -345,7 +413,7 @@ func (w *fsWalker) walk(b *ssa.BasicBlock, idx int, prev *ssa.BasicBlock, s *fsS
 					}
 					break
 				}
-				if bo, ok := cond.(*ssa.BinOp); ok && (bo.Op == token.EQL || bo.Op == token.NEQ) {
+				if bo, ok := cond.(*ssa.BinOp); ok && (bo.Op == token.EQL || bo.Op == token.NEQ) && (isNilConst(bo.X) || isNilConst(bo.Y)) {
 					var other ssa.Value
 					if isNilConst(bo.Y) {
 						other = bo.X
@@ -381,6 +449,48 @@ func (w *fsWalker) walk(b *ssa.BasicBlock, idx int, prev *ssa.BasicBlock, s *fsS
 								} else {
 									takeF = false
 								}
+							}
+						}
+					}
+				} else if bo, ok := cond.(*ssa.BinOp); ok && (bo.Op == token.EQL || bo.Op == token.NEQ) && (isSentinelLoad(bo.X) || isSentinelLoad(bo.Y)) {
+					// err == io.EOF style comparison
+					sent, other := bo.Y, bo.X
+					if isSentinelLoad(bo.X) {
+						sent, other = bo.X, bo.Y
+					}
+					isEq := bo.Op == token.EQL
+					if neg {
+						isEq = !isEq
+					}
+					if w.eval(s, other) == nsNil {
+						if isEq {
+							takeT = false
+						} else {
+							takeF = false
+						}
+					} else {
+						o := other
+						l := func(ns *fsState) { w.learn(ns, o, nsNonNil) }
+						tol := false
+						if w.isE(other) && !s.fresh {
+							g := sent.(*ssa.UnOp).X.(*ssa.Global)
+							for _, t := range w.tolerate {
+								if t == "errors.Is:"+shortName(g.String()) {
+									tol = true
+								}
+							}
+						}
+						if isEq {
+							learnT = l
+							if tol {
+								takeT = false
+								w.tolerated++
+							}
+						} else {
+							learnF = l
+							if tol {
+								takeF = false
+								w.tolerated++
 							}
 						}
 					}
